@@ -90,7 +90,7 @@ def gen_cases(ctx):
             cases.append(('MID', (s, 1 + n, 2)))
             cases.append(('FIND', ('l', s, 1 + n)))
     # random longer texts
-    nrand = 20000 if thorough else 1500
+    nrand = 400000 if thorough else 1500
     alpha2 = 'abAB "\'é,;:'
     for _ in range(nrand):
         s = ''.join(rng.choice(alpha2) for _ in range(rng.randint(0, 14)))
